@@ -236,7 +236,7 @@ def run_job(job, rep):
                         rep.ob(st, f"field-changed:{cls.__name__}.{f.name}", mcase(mm) if mm is not None else case, "decode(encode(obj)) != obj")
                     rep.sample(dict(cls=cls.__name__, lens=ll, witness=case["fields"]), limit=1)
 
-                _, st = core.explore(run, on_path=judge, timeout=600)
+                _, st = core.explore(run, on_path=judge, stop=rep.enough, timeout=600)
                 rep.add_stats(st)
 
 
